@@ -229,7 +229,7 @@ func malformed(r *core.RNG) string {
 func (prop) Generate(r *core.RNG, tier string) []json.RawMessage {
 	n := 1300
 	if tier == "thorough" {
-		n = 16000
+		n = 10000
 	}
 	var out []json.RawMessage
 	seen := map[string]bool{}
@@ -279,7 +279,7 @@ func (prop) Generate(r *core.RNG, tier string) []json.RawMessage {
 	if tier == "thorough" {
 		// exhaustive small scope: every tree of depth <= 3 and width <= 3 over two labels, and every tree of
 		// depth <= 3 and width <= 2 over three labels (a path-less identifier, a foreign dotted package, the
-		// target package), rendered for the target package.
+		// target package), rendered for s/t (every fifth one for x.y).
 		type label struct{ p, n string }
 		enum := func(labels []label, maxW int) []*Node {
 			var level []*Node // trees of depth <= d
@@ -308,12 +308,12 @@ func (prop) Generate(r *core.RNG, tier string) []json.RawMessage {
 			}
 			return level
 		}
-		two := enum([]label{{"", "a"}, {"x.io/p", "P"}}, 3)
-		three := enum([]label{{"", "a"}, {"x.io/p", "P"}, {"s/self", "S"}}, 2)
+		two := enum([]label{{"", "a"}, {"x.y", "P"}}, 3)
+		three := enum([]label{{"", "a"}, {"x.y", "P"}, {"s/t", "S"}}, 2)
 		for i, t := range append(two, three...) {
-			self := "s/self"
+			self := "s/t"
 			if i%5 == 4 {
-				self = "x.io/p"
+				self = "x.y"
 			}
 			add(input{Self: self, Tree: t})
 		}
@@ -360,27 +360,52 @@ type observed struct {
 	Imports    map[string]string `json:"imports"`
 }
 
-func coqTree(t *gtypes.TypeRef) string {
+// syms binds every distinct string of one case to a local name (`let s3 := hx "…" in …`): Coq pays per
+// byte of literal when it elaborates a case file, and the same paths / identifiers / strings recur many
+// times within a case (input tree, observed tree, names, calls).  Sharing changes the syntax of the term only.
+type syms struct {
+	m     map[string]string
+	binds []string
+}
+
+func (y *syms) hex(s string) string {
+	if id, ok := y.m[s]; ok {
+		return id
+	}
+	if y.m == nil {
+		y.m = map[string]string{}
+	}
+	id := fmt.Sprintf("s%d", len(y.m))
+	y.m[s] = id
+	y.binds = append(y.binds, "let "+id+" := "+core.Hex(s)+" in")
+	return id
+}
+
+func (y *syms) bind(id, term string) { y.binds = append(y.binds, "let "+id+" := "+term+" in") }
+
+func (y *syms) wrap(term string) string { return "(" + strings.Join(y.binds, " ") + " " + term + ")" }
+
+func (y *syms) tree(t *gtypes.TypeRef) string {
 	var args []string
 	for _, a := range t.TypeList {
 		if a == nil {
 			args = append(args, "(TRef [] [] [])")
 			continue
 		}
-		args = append(args, coqTree(a))
+		args = append(args, y.tree(a))
 	}
-	return "(TRef " + core.Hex(t.PkgPath) + " " + core.Hex(t.Name) + " " + core.CoqList(args) + ")"
+	return "(TRef " + y.hex(t.PkgPath) + " " + y.hex(t.Name) + " " + core.CoqList(args) + ")"
 }
 
-func coqNode(n *Node) string {
+func (y *syms) node(n *Node) string {
 	var args []string
 	for _, a := range n.A {
-		args = append(args, coqNode(a))
+		args = append(args, y.node(a))
 	}
-	return "(TRef " + core.Hex(n.P) + " " + core.Hex(n.N) + " " + core.CoqList(args) + ")"
+	return "(TRef " + y.hex(n.P) + " " + y.hex(n.N) + " " + core.CoqList(args) + ")"
 }
 
-func coqPair(a, b string) string { return "(" + core.Hex(a) + ", " + core.Hex(b) + ")" }
+func (y *syms) pair(a, b string) string { return "(" + y.hex(a) + ", " + y.hex(b) + ")" }
 
 func (prop) Run(raw json.RawMessage, _ string) core.Result {
 	var in input
@@ -388,6 +413,14 @@ func (prop) Run(raw json.RawMessage, _ string) core.Result {
 	s := in.str()
 	var res core.Result
 	var obs observed
+	y := &syms{}
+	treeTerm := "None"
+	inTree := ""
+	if in.Tree != nil {
+		inTree = y.node(in.Tree)
+		y.bind("t0", inTree)
+		treeTerm = "(Some t0)"
+	}
 
 	// ParseTypeRef / String
 	var tr *gtypes.TypeRef
@@ -397,14 +430,18 @@ func (prop) Run(raw json.RawMessage, _ string) core.Result {
 		obs.Parse = "panic"
 	} else if err != nil {
 		obs.Parse, obs.ParseErr = "error", err.Error()
-		parseTerm = "(OErr " + core.Hex(err.Error()) + ")"
+		parseTerm = "(OErr " + y.hex(err.Error()) + ")"
 	} else {
 		var printed string
 		if p, _ := core.Recover(func() { printed = tr.String() }); p {
 			obs.Parse = "panic"
 		} else {
 			obs.Parse, obs.Printed = "ok", printed
-			parseTerm = "(OTree " + coqTree(tr) + " " + core.Hex(printed) + ")"
+			got := y.tree(tr)
+			if got == inTree { // same term: share it
+				got = "t0"
+			}
+			parseTerm = "(OTree " + got + " " + y.hex(printed) + ")"
 		}
 	}
 
@@ -422,7 +459,7 @@ func (prop) Run(raw json.RawMessage, _ string) core.Result {
 		obs.Ref, refTerm = "error", "(Some None)"
 	} else {
 		obs.Ref = "ok"
-		refTerm = "(Some (Some " + coqPair(obs.RefPkg, obs.RefName) + "))"
+		refTerm = "(Some (Some " + y.pair(obs.RefPkg, obs.RefName) + "))"
 		// Ref(path, name) gives the same answers as the parsed reference
 		r2 := gtypes.Ref(obs.RefPkg, obs.RefName)
 		if r2.Pkg().Path() != obs.RefPkg || r2.Name() != obs.RefName || r2.String() != refStr {
@@ -435,7 +472,7 @@ func (prop) Run(raw json.RawMessage, _ string) core.Result {
 	if p, _ := core.Recover(func() { obs.ExposePath, obs.Expose = gengo.PkgImportPathAndExpose(s) }); p {
 		obs.ExposePan = true
 	} else {
-		exposeTerm = "(Some " + coqPair(obs.ExposePath, obs.Expose) + ")"
+		exposeTerm = "(Some " + y.pair(obs.ExposePath, obs.Expose) + ")"
 	}
 
 	// snippet.ID(s) through a SnippetWriter
@@ -452,7 +489,7 @@ func (prop) Run(raw json.RawMessage, _ string) core.Result {
 		}
 	} else {
 		obs.ID = buf.String()
-		idTerm = "(Some " + core.Hex(obs.ID) + ")"
+		idTerm = "(Some " + y.hex(obs.ID) + ")"
 	}
 	obs.Adds = rt.adds
 	obs.Imports = map[string]string{}
@@ -486,17 +523,13 @@ func (prop) Run(raw json.RawMessage, _ string) core.Result {
 	sort.Strings(keys)
 	var nameItems, addItems []string
 	for _, k := range keys {
-		nameItems = append(nameItems, coqPair(k, obs.Imports[k]))
+		nameItems = append(nameItems, y.pair(k, obs.Imports[k]))
 	}
 	for _, a := range rt.adds {
-		addItems = append(addItems, core.Hex(a))
+		addItems = append(addItems, y.hex(a))
 	}
-	treeTerm := "None"
-	if in.Tree != nil {
-		treeTerm = "(Some " + coqNode(in.Tree) + ")"
-	}
-	res.Coq = fmt.Sprintf("mk_case %s %s %s %s %s %s %s %s %s %s", core.Hex(in.Self), core.Hex(s), treeTerm, core.CoqList(nameItems),
-		parseTerm, refTerm, core.Hex(refStr), exposeTerm, idTerm, core.CoqList(addItems))
+	res.Coq = y.wrap(fmt.Sprintf("mk_case %s %s %s %s %s %s %s %s %s %s", y.hex(in.Self), y.hex(s), treeTerm, core.CoqList(nameItems),
+		parseTerm, refTerm, y.hex(refStr), exposeTerm, idTerm, core.CoqList(addItems)))
 
 	// distribution
 	if in.Tree != nil {
